@@ -41,6 +41,7 @@ struct ReqSpec {
 
 struct Cfg {
   std::string name;
+  std::string sys_resolv; // content of the system configuration file when the search settings come from OPTIONS: whatever it says about search/ndots must lose
   bool        sysconf_search = false; // search domains and ndots come from the system configuration file (not from options), so ares_reinit() can change them
   bool        reuse_fds = false; // hand out the lowest free descriptor number like POSIX does (default: numbers are never reused)
   // events {kind,a,b} applied before the search starts: the search then explores from a non-initial state (they are
